@@ -207,3 +207,10 @@ let () =
                    (List.length (List.sort_uniq compare (List.map snd oenv))) (List.length oenv) in
         { model = m; spec = sp; dom = true }
     | _ -> failwith "dag")
+
+(* ---------- extraction of attribute-carrying views: the driver compares apply(extraction) with the view itself
+   (shape and every element); the expected view shape comes from the case line ---------- *)
+let () =
+  register "attr" (fun a -> match a with
+    | [_name; _a; _b; _params; shape] -> both ("reproduces " ^ show_list (getL shape)) true
+    | _ -> failwith "attr")
